@@ -423,7 +423,7 @@ func ruleErr(sc errScope) ruleFn {
 						r.Tabled("R6.flow", name, construct, site, "err", reason)
 						continue
 					}
-					if reason, ok := terminateTable[name]; ok && strings.Contains(why, "has no error result") {
+					if reason, ok := r.terminates(fn, 0); ok && strings.Contains(why, "has no error result") {
 						r.Tabled("R6.flow", name, construct, site, "terminate", reason)
 						continue
 					}
@@ -433,4 +433,32 @@ func ruleErr(sc errScope) ruleFn {
 		}
 		r.AtLeast("R6", "error-like values in scope "+sc.label, n, sc.min)
 	}
+}
+
+// terminates reports whether fn is a connection-owning function whose reaction to a failure
+// is to end the connection: it is tabled as such, or it returns
+// nothing and is called only from such functions (a phase split out of one).
+func (r *Run) terminates(fn *ssa.Function, depth int) (string, bool) {
+	if reason, ok := terminateTable[fnName(fn)]; ok {
+		return reason, true
+	}
+	if depth > 3 || fn.Signature.Results().Len() != 0 {
+		return "", false
+	}
+	reason, callers := "", 0
+	for _, e := range r.P.CG.In[fn] {
+		if e.Kind == "param" {
+			continue
+		}
+		if _, spawned := e.Site.(*ssa.Go); spawned {
+			return "", false // a new goroutine does not end its spawner's connection by returning
+		}
+		why, ok := r.terminates(e.Caller, depth+1)
+		if !ok {
+			return "", false
+		}
+		callers++
+		reason = why + " (phase of " + fnName(e.Caller) + ")"
+	}
+	return reason, callers > 0
 }
